@@ -10,11 +10,56 @@ SHRINK_LINES = False
 FRESH_EVERY = 4     # every fourth plan of a worker starts in a new executor process (lazy, once-per-process initialisations)
 
 
+def _wpark(rng, small=8):
+    """One race-directed parking point (see exec/thrsim.c): which watched block / event, how far the other thread runs
+    (in watch events, capped in blocks), and the fine round-robin phase that follows."""
+    if rng.chance(0.7):
+        kind, idx = 'first', rng.below(small)
+    else:
+        kind, idx = 'event', rng.choice([rng.below(small), rng.below(small), rng.below(30), rng.below(300), rng.below(3000)])
+    # how many further watch events the other thread gets: a handful (it passes the same check / finishes the same
+    # initialisation and starts to use the result) or hundreds (it is deep in the work that follows)
+    m = rng.choice([0, 1, 2, 3, 4, 6, 10, 30, 100]) if rng.chance(0.6) else rng.choice([200, 220, 260, 300, 500, 1000, 3000])
+    # the other thread may need millions of blocks to get to the same place (a selection costs 2-4 million before it reads its first constant)
+    cap = rng.choice([20000, 2000000, 20000000, 20000000, 50000000])
+    return 'WPARK %s %d %d %d %d %d %d' % (kind, idx, m, cap, rng.choice([500, 3000, 3000, 20000]), rng.choice([1, 1, 2, 3, 6, 20]), rng.below(1 << 30))
+
+
 def gen_plan(rng, tier, config, opts):
     lines = ['relic-sim-plan 1', 'engine thrsim', 'config T']
     k = rng.choice([2, 2, 3, 3, 4])
     same = rng.chance(0.4)
     curve = rng.choice(ctxsim.CURVES)
+    if rng.chance(0.35):
+        # race-directed plans in a brand-new process: the same script in every thread; a thread is parked in front of a
+        # block of library code that touches writable static storage (sim/watch.py) - the i-th such block ever reached in the
+        # process, or the i-th such event -, another thread runs on through the same code, then both proceed in fine slices
+        k = rng.choice([2, 2, 2, 3])
+        cv = curve if curve != 'BN_P256' else 'NIST_P256'
+        items = [rng.choice(['W_STR %d' % rng.below(1000), 'W_STR %d' % rng.choice([61, 62, 59, 40, 14, 33]), 'W_HASH %d' % rng.below(1000),
+                             'W_MAP m%d' % rng.below(1000), 'W_ECDSA', 'W_SSS', 'W_PSI', 'W_ECIES', 'RAND', 'RAND',
+                             'W_MUL ' + rng.bytes(20).hex(), 'W_MULGEN ' + rng.bytes(20).hex(), 'W_FPINV ' + rng.bytes(20).hex()])
+                 for _ in range(rng.randint(2, 5))]
+        where = rng.choice(['before', 'before', 'after', 'none'])
+        lines.append('# fresh-process')
+        for t in range(k):
+            steps = ['RESEED ' + rng.bytes(8).hex()] + (['BARRIER'] if where == 'before' else []) + ['EPSET ' + cv] + \
+                    (['BARRIER'] if where == 'after' else []) + items + ['CLRERR', 'PROBE 1']
+            lines += ['THREAD %d %s' % (t, s) for s in steps]
+        if where != 'none':
+            lines.append('SEG 0 999999999')
+        idxs = set()
+        for _ in range(rng.choice([1, 1, 2])):
+            w = _wpark(rng)
+            key = tuple(w.split()[1:3])
+            if key not in idxs:
+                idxs.add(key)
+                lines.append(w)
+        if rng.chance(0.5):
+            lines.append('RR %d %d %d' % (rng.choice([100000, 250000]), rng.choice([1, 2, 3, 6, 40]), rng.below(1 << 30)))
+        else:
+            lines += ['SEG %d %d' % (rng.below(k), rng.randint(1000, 2000000)) for _ in range(rng.randint(5, 60))]
+        return '\n'.join(lines) + '\n'
     if rng.chance(0.12):
         # first calls of the process: a brand-new executor, two to four threads that make the same kind of call for the
         # first time in the process at (almost) the same moment, a seeded lag of up to a few hundred blocks apart -
@@ -55,6 +100,8 @@ def gen_plan(rng, tier, config, opts):
             lines += ['THREAD %d %s' % (t, s) for s in steps]
         if aligned:
             lines.append('SEG 0 999999999')      # up to the barrier one after the other (initialisation costs millions of blocks)
+        if rng.chance(0.5):
+            lines.append(_wpark(rng, 24))
         lines.append('SEG 0 %d' % rng.randint(1, 2000))
         # slices of a few blocks only reach the first half million blocks behind the alignment point; a protocol run costs
         # millions (hashing to primes, exponentiations), so most plans use slices of up to some tens or hundreds of blocks -
@@ -81,6 +128,8 @@ def gen_plan(rng, tier, config, opts):
     # the schedule: a mixture of very short, medium and long slices; a third of the plans start with a
     # burst of single-block slices (while the threads are inside core_init / their first selection)
     segs = []
+    if rng.chance(0.3):
+        lines += [_wpark(rng, 24) for _ in range(rng.choice([1, 2, 3]))]
     if rng.chance(0.35):
         for _ in range(rng.randint(50, 800)):
             segs.append((rng.below(k), rng.randint(1, 4)))
@@ -147,6 +196,10 @@ def check(plan, transcript, config, opts, refs=None):
     out.probe('first-call-plan-in-a-new-process', 1 if '# fresh-process' in plan else 0)
     out.probe('threads-aligned-at-a-barrier', 1 if 'BARRIER' in plan else 0)
     out.probe('round-robin-lockstep-plan', 1 if '\nRR ' in plan else 0)
+    out.probe('race-directed-plan', 1 if '\nWPARK ' in plan else 0)
+    out.fault('thread-parked-at-shared-static-storage', int(kv.get('wparks', 0)))
+    out.probe('watch-events(code-touching-writable-static-storage)', int(kv.get('wevents', 0)))
+    out.probe('watch-list-loaded', 1 if int(kv.get('watched', 0)) > 0 else 0)
     refs = refs or []
     for (t, _), ref in zip(sorted(th.items()), refs):
         mine = got.get(t, [])
